@@ -1151,10 +1151,21 @@ def _synth_module(tag):
         decls.append("%s\nclass %s_exc(Exception):\n    x%s = %s()\n    y%s = %s(default=5)\n"
                      % (d, name, ann, fld, ann, fld))
         decls.append("class %s_exc_plain(%s_exc):\n    pass\n" % (name, name))
+        # not every exception is an Exception
+        decls.append("%s\nclass %s_bexc(BaseException):\n    x%s = %s()\n    y%s = %s(default=5)\n"
+                     % (d, name, ann, fld, ann, fld))
     modname = "c05_synth_%s" % tag
     m = types.ModuleType(modname)
     sys.modules[modname] = m
-    exec(compile(_SYNTH_SRC.format(decls="\n".join(decls)), "<%s>" % modname, "exec"), m.__dict__)
+    exec(compile(_SYNTH_SRC.format(decls=""), "<%s>" % modname, "exec"), m.__dict__)
+    m._failed = {}
+    for d in decls:
+        # one class statement at a time: a definition that raises is an observation, not a crash
+        try:
+            exec(compile(d, "<%s>" % modname, "exec"), m.__dict__)
+        except Exception as e:
+            cname = d.split("class ", 1)[1].split("(")[0].split(":")[0].strip()
+            m._failed[cname] = "%s: %s" % (type(e).__name__, e)
     return m
 
 
@@ -1229,7 +1240,10 @@ def extra(tier, seed):
             for cache in (False, True):
                 for suffix in ("", "_sub", "_plain"):
                     cn = name + ("_c" if cache else "") + suffix
-                    cls = getattr(m, cn)
+                    cls = getattr(m, cn, None)
+                    if cls is None:
+                        obs(False, "class-definition", "%s: %s" % (cn, m._failed.get(cn, "base missing")))
+                        continue
                     cnt = m.Count(3)
                     try:
                         o = cls(cnt)
@@ -1241,9 +1255,12 @@ def extra(tier, seed):
                     except Exception as e:
                         obs(False, "observation-crashed", "%s: %s" % (cn, type(e).__name__))
                     continue
-            for suffix in ("_exc", "_exc_plain"):
+            for suffix in ("_exc", "_exc_plain", "_bexc"):
                 cn = name + suffix
-                cls = getattr(m, cn)
+                cls = getattr(m, cn, None)
+                if cls is None:
+                    obs(False, "class-definition", "%s: %s" % (cn, m._failed.get(cn, "base missing")))
+                    continue
                 # raise ... from ..., implicit context, with_traceback, notes
                 cause = KeyError("k")
                 try:
